@@ -12,7 +12,7 @@ THEOREMS_CACHE = ["single_flight", "at_most_one_success_per_key", "waiters_get_o
                   "returns_linearizable", "no_lost_wakeup"]
 THEOREMS_COMPUTE = ["compute_patches_confluent", "compute_patches_confluent_compare", "patch_compare_total_preorder",
                     "patch_compare_not_transitive_refuted", "compute_patches_tie_schedule_dependent_refuted"]
-THEOREMS_RACE = ["walk_status_ticker_race_refuted"]
+THEOREMS_RACE = ["walk_context_race_free"]
 
 META = {
     "technique": "Coq proofs (confluence of a nondeterministic task pool; inductive invariants of an LTS over arbitrarily "
@@ -26,10 +26,12 @@ META = {
                   "waiters_get_owner_result, returns_linearizable, no_lost_wakeup). Tied to the code on every run by "
                   "driving the real common.ComputePatches / datasource.RequestCache under EVERY completion order of 2..4 "
                   "gated callbacks and checking by vm_compute that each observed trace is a run of the model. "
+                  "The real override / relax strategies are additionally run under the race detector against a resolve client "
+                  "that hands out shared unsorted version slices (race report with osv-scalibr frames or modified client state = violation). "
                   "PARTIAL: data-race freedom of the scan engine is a lock-set/happens-before table regenerated from "
-                  "filesystem.go's AST on every run (theorem walk_status_ticker_race_refuted: the status ticker races with the "
-                  "walk) and is confirmed at run time by the Go race detector on a > 2 s scan; a Gallina model cannot exhibit "
-                  "a Go data race.",
+                  "filesystem.go's AST on every run (theorem walk_context_race_free: every conflicting pair between the walk and "
+                  "the status ticker is ordered or under a common mutex) and is searched at run time by the Go race detector on "
+                  "a > 2 s scan (any report is a violation); a Gallina model cannot exhibit a Go data race.",
     "level_note": "Trusted: Coq kernel + vm_compute; the Go harness harness/cmd/sched (gating, event log order), the AST "
                   "translator harness/cmd/walkaccess, the Go race detector; hook guidedremediation/verif_export_c16.go; "
                   "granularity = caller-supplied callbacks (PatchFunc, fetch functions) and the mutex sections of "
@@ -172,7 +174,7 @@ def part_walk(ctx, racebin, known):
     pairs, rc, out = coq_race_pairs(ctx)
     res = {"coq_race_pairs": len(pairs)}
     reports, walk_out = [], ""
-    for ms in (2600, 4600):
+    for ms in ((2600, 4600) if known is not None else (2600,)):
         rc, walk_out = vlib.sh([racebin, "-mode", "walk", "-walk-ms", str(ms)], timeout=120)
         reports = parse_race_reports(walk_out)
         if reports:
@@ -187,13 +189,17 @@ def part_walk(ctx, racebin, known):
     for r in reports:
         fr = frozenset((f[0], f[2]) for f in r["frames"] if f[1] == "filesystem.go")
         (matched if (len(r["frames"]) == 2 and fr in pairset) else unmatched).append(r)
+    if known is None:
+        # no data race of the walk context is on file as known: every report is a violation
+        unmatched, matched = matched + unmatched, []
     res["matched_known"] = len(matched)
     res["unmatched"] = len(unmatched)
     res["matched_frames"] = sorted(set(json.dumps(r["frames"]) for r in matched))
     for r in unmatched[:3]:
         ctx.violation({"kind": "data-race", "part": "walk", "frames": r["frames"], "report": r["text"],
                        "explanation": "the Go race detector reported a data race during a > 2 s filesystem.Run that is not "
-                                      "one of the pairs derived by Sched.RaceModel from the source (walk_status_ticker_race_refuted)",
+                                      "one of the unprotected pairs derived by Sched.RaceModel from the source (theorem "
+                                      "walk_context_race_free says there are none)",
                        "replay_cmd": "%s -mode walk -walk-ms 2600" % racebin})
     if known is not None:
         if matched:
